@@ -1,6 +1,7 @@
 package main
 
 import (
+	"math"
 	"encoding/json"
 	"errors"
 	"fmt"
@@ -30,7 +31,7 @@ func init() {
 				{T: "recover", F: 0, Cb: &PCb{T: "panicInner", E: ip(1)}}, {T: "recover", F: 1, Cb: &PCb{T: "panicErr", E: ip(1)}},
 				{T: "recover", F: 0, Cb: &PCb{T: "call", C: &PCb{T: "recover", F: 1, C: &PCb{T: "panicInner", E: ip(0)}}}}}))
 			out = append(out, runC17([]PStmt{
-				{T: "define", Kind: "k1", Opts: []POpt{{T: "depth", N: -1}}}, {T: "withopts", D: 0, Opts: []POpt{{T: "depth", N: -3}}},
+				{T: "define", Kind: "k1", Opts: []POpt{{T: "depth", N: math.MaxInt}}}, {T: "withopts", D: 0, Opts: []POpt{{T: "depth", N: -3}}},
 				{T: "ctx", Opts: []POpt{{T: "depth", N: -1}}}, {T: "define", Kind: "k2"}, {T: "with", D: 2, Ctx: ip(0)},
 				{T: "recover", F: 0, Cb: &PCb{T: "panicVal", Val: 0}}, {T: "recover", F: 1, Cb: &PCb{T: "panicRt", Rt: "nilmap"}},
 				{T: "recover", F: 3, Cb: &PCb{T: "panicErr", E: ip(0)}}, {T: "recover", F: 2, Cb: &PCb{T: "ret"}}}))
